@@ -363,7 +363,7 @@ pub fn run(ctx: &mut Ctx) {
         }
     }
     ctx.stratum("R-random-trees", false);
-    let nr = ctx.tier.pick(20_000u64, 5_000_000u64);
+    let nr = ctx.tier.n(20_000, 5_000_000);
     for i in 0..nr {
         if !ctx.take() {
             continue;
